@@ -30,6 +30,13 @@ type LoopContract struct {
 	Assigns    []string
 }
 
+// ClosureContract: contract of a function literal bound once to a local (checked at every inlined call).
+type ClosureContract struct {
+	Name     string
+	Requires []*Clause
+	Ensures  []*Clause
+}
+
 type GhostVar struct {
 	Name string
 	Type string
@@ -58,6 +65,7 @@ type Contract struct {
 	NilRecv    bool // the method accepts a nil receiver
 	NoVerify   bool // contract used at call sites but body not verified here (listed as assumption)
 	Loops      map[int]*LoopContract
+	Closures   map[string]*ClosureContract
 	GhostVars  []*GhostVar
 	Hooks      []*GhostHook
 	Cost       *Clause
@@ -111,6 +119,7 @@ func ParseContracts(src string) *ContractFile {
 	var cur *Contract
 	var curLoop *LoopContract
 	var curLemma *Lemma
+	var curClosure *ClosureContract
 	var lastClause *Clause
 	errf := func(line int, f string, a ...any) {
 		cf.Errors = append(cf.Errors, fmt.Sprintf("contracts:%d: %s", line, fmt.Sprintf(f, a...)))
@@ -147,7 +156,8 @@ func ParseContracts(src string) *ContractFile {
 		}
 		switch word {
 		case "func":
-			cur = &Contract{Key: rest, Line: ln, Loops: map[int]*LoopContract{}}
+			cur = &Contract{Key: rest, Line: ln, Loops: map[int]*LoopContract{}, Closures: map[string]*ClosureContract{}}
+			curClosure = nil
 			if _, dup := cf.Contracts[rest]; dup {
 				errf(ln, "duplicate contract for %s", rest)
 			}
@@ -212,11 +222,27 @@ func ParseContracts(src string) *ContractFile {
 		switch word {
 		case "props":
 			cur.Props = splitProps(rest)
+		case "closure":
+			curClosure = &ClosureContract{Name: rest}
+			cur.Closures[rest] = curClosure
+			curLoop = nil
 		case "requires":
+			if curClosure != nil {
+				c := &Clause{Kind: "requires", Text: rest, Props: props, Line: ln, Ord: len(curClosure.Requires) + 1}
+				curClosure.Requires = append(curClosure.Requires, c)
+				lastClause = c
+				break
+			}
 			c := &Clause{Kind: "requires", Text: rest, Props: props, Line: ln, Ord: len(cur.Requires) + 1}
 			cur.Requires = append(cur.Requires, c)
 			lastClause = c
 		case "ensures":
+			if curClosure != nil {
+				c := &Clause{Kind: "ensures", Text: rest, Props: props, Line: ln, Ord: len(curClosure.Ensures) + 1}
+				curClosure.Ensures = append(curClosure.Ensures, c)
+				lastClause = c
+				break
+			}
 			c := &Clause{Kind: "ensures", Text: rest, Props: props, Line: ln, Ord: len(cur.Ensures) + 1}
 			cur.Ensures = append(cur.Ensures, c)
 			lastClause = c
@@ -255,6 +281,7 @@ func ParseContracts(src string) *ContractFile {
 			}
 			curLoop = &LoopContract{N: n}
 			cur.Loops[n] = curLoop
+			curClosure = nil
 		case "invariant":
 			if curLoop == nil {
 				errf(ln, "invariant outside loop")
@@ -295,8 +322,8 @@ func ParseContracts(src string) *ContractFile {
 				stm := &Clause{Kind: "ghoststmt", Text: strings.TrimSpace(rest[k+1:]), Line: ln}
 				h := &GhostHook{Stmts: stm}
 				switch {
-				case len(head) == 4 && head[1] == "call":
-					h.Where = "call"
+				case len(head) == 4 && (head[1] == "call" || head[1] == "precall"):
+					h.Where = head[1]
 					h.N, _ = strconv.Atoi(head[2])
 					h.Callee = head[3]
 				case len(head) == 4 && head[1] == "loop":
